@@ -30,3 +30,89 @@ Theorem C03_mode_callee : forall ns tmpl,
   (template_mode (call_mode ns) tmpl =? 2) = (eff_spec ns tmpl =? 2).
 Proof. exact mode_callee_escapes. Qed.
 Print Assumptions C03_mode_callee.
+
+(* ------------------------------------------------------------------ *)
+(* the interpreter level: the autoescape mode of the tree walker (Model/Interp.v) *)
+From Soy Require Import Model.Num Model.Values Model.Outcome Model.Ast Model.Directives Model.Print Model.Interp
+  Proofs.InterpLogic Proofs.InterpGuard Proofs.ModeProofs.
+
+(* (i) walking a node that nests no template -- any command, any {call} to any template, any expression --
+   leaves the mode as it found it, on every outcome: a call restores the caller's mode however the
+   callee's namespace and template set theirs and however the callee ends *)
+Theorem C03_mode_preserved :
+  forall cf fuel n st r st',
+    no_template_inside n = true -> walk cf fuel n st = (r, st') -> mode st' = mode st.
+Proof. exact walk_mode_preserved. Qed.
+Print Assumptions C03_mode_preserved.
+
+(* (ii) the walker instrumented with a monitor that aborts with [Crash e_mode] as soon as a print command
+   is reached in a state whose mode is not the effective mode of the template whose body is being walked
+   ([template_mode m0 attr], m0 the mode the template node was entered with: [entry_mode ns] from render,
+   [call_mode ns] from a call) is, on a well-formed registry, the walker itself: same outcome, same state,
+   for every template, fuel, start state and expected mode, at any call depth -- and the walker never
+   produces [Crash e_mode] on its own, so the monitor never trips *)
+Theorem C03_print_mode_is_template_mode :
+  forall cf fuel mu t st,
+    registry_wf (c_reg cf) = true -> In t (r_templates (c_reg cf)) ->
+    walk_mon cf fuel mu (t_node t) st = walk cf fuel (t_node t) st /\
+    fst (walk_mon cf fuel mu (t_node t) st) <> Crash e_mode.
+Proof.
+  intros cf fuel mu t st WF Hin. split; [apply walk_mon_is_walk; assumption | apply monitor_never_trips; assumption].
+Qed.
+Print Assumptions C03_print_mode_is_template_mode.
+
+(* the same below a template, started in the expected mode *)
+Theorem C03_print_mode_below :
+  forall cf fuel mu n st,
+    registry_wf (c_reg cf) = true -> no_template_inside n = true -> mode st = mu ->
+    walk_mon cf fuel mu n st = walk cf fuel n st.
+Proof. intros cf fuel mu n st WF. apply walk_mon_is_walk_below. exact WF. Qed.
+Print Assumptions C03_print_mode_below.
+
+(* and the entry template of a render is walked from [entry_mode ns], a callee from [call_mode ns] *)
+Theorem C03_render_entry_mode :
+  forall c m name cl bl fid, mode (init_state c m name cl bl fid) = m.
+Proof. reflexivity. Qed.
+Theorem C03_call_entry_mode :
+  forall st callee cd, mode (entered st callee cd) = call_mode (t_ns_autoescape callee).
+Proof. reflexivity. Qed.
+
+(* a print command reached in a state of mode mu performs [print_writes mu] *)
+Theorem C03_print_at_mode :
+  forall cf (w : node -> M value) p arg dirs st,
+    (forall c, no_template_inside c = true -> keeps_mode (w c)) ->
+    no_template_inside (NPrint p arg dirs) = true ->
+    walk_node cf w (NPrint p arg dirs) st = print_at cf w (mode st) arg dirs st.
+Proof. exact print_at_mode. Qed.
+Print Assumptions C03_print_at_mode.
+
+(* (iii) what a print writes: the value after its directives (obligatory ones included), escaped exactly
+   when the decision of C03_escape_decision says so *)
+Theorem C03_print_writes_decision :
+  forall mu ds s ws,
+    print_writes mu ds s = Ok ws ->
+    exists s', apply_directives ds s (negb (mu =? 2)) = Ok (s', escape_decision mu (map cancel_of ds)) /\
+               ws = if escape_decision mu (map cancel_of ds) then esc_writes [] s' else [s'].
+Proof. exact print_writes_decision. Qed.
+Print Assumptions C03_print_writes_decision.
+
+(* mode not off, no cancelling directive: exactly the escaper's Write calls, whose concatenation is
+   html_escape of that value -- no raw special character, and it decodes back to the value *)
+Theorem C03_autoescaped_print_is_escaped :
+  forall mu ds s ws,
+    mu <> 2 -> Forall (fun c => c = false) (map cancel_of ds) ->
+    print_writes mu ds s = Ok ws ->
+    exists s', apply_directives ds s true = Ok (s', true) /\
+               ws = esc_writes [] s' /\ concat_b ws = html_escape s' /\
+               no_raw_special (concat_b ws) /\ html_decode (concat_b ws) = s'.
+Proof. exact autoescaped_print_escaped. Qed.
+Print Assumptions C03_autoescaped_print_is_escaped.
+
+(* ---- non-vacuity: caller (autoescape on) prints x, calls a template of a namespace with autoescape off
+   that prints x, and prints x again ---- *)
+Example C03_mode_example_wf : registry_wf ex_reg = true.
+Proof. vm_compute. reflexivity. Qed.
+Example C03_mode_example :
+  let r := render ex_mode_cfg 10 ex_caller 7 [(ex_x, VStr (b "<i>"))] None None 100 in
+  rr_outcome r = Ok tt /\ concat_b (rr_writes r) = b "&lt;i&gt;<i>&lt;i&gt;".
+Proof. vm_compute. split; reflexivity. Qed.
